@@ -58,6 +58,8 @@ type socket struct {
 	pingIntervalTimer atomic.Pointer[utils.Timer]
 
 	flushMu sync.Mutex
+	// a flush was asked for while another one held flushMu
+	flushWanted atomic.Bool
 	// packets accepted by sendPacket and not yet handed to a transport (buffered, or taken
 	// by a flush that is still running its listeners)
 	pending atomic.Int64
@@ -372,12 +374,14 @@ func (s *socket) MaybeUpgrade(transport transports.Transport) {
 		if !s.flushMu.TryLock() {
 			return
 		}
-		defer s.flushMu.Unlock()
-
 		if transports.POLLING == s.Transport().Name() && s.Transport().Writable() {
 			verifhook.At("upgrade.check", s.id)
 			socket_log.Debug("writing a noop packet to polling for fast upgrade")
 			s.Transport().Send([]*packet.Packet{{Type: packet.NOOP}})
+		}
+		s.flushMu.Unlock()
+		if s.flushWanted.Load() {
+			s.flush()
 		}
 	}
 
@@ -539,13 +543,21 @@ func (s *socket) sendPacket(
 // Attempts to flush the packets buffer.
 func (s *socket) flush() {
 	// flush and drain listeners run with the lock held and may call Send or Close
-	// themselves: a flush already in progress must not be waited for (the packets
-	// stay buffered and go out with the next ready event)
-	if !s.flushMu.TryLock() {
-		return
+	// themselves: a flush already in progress must not be waited for. The request is
+	// not lost either: whoever holds the lock looks at flushWanted again after
+	// unlocking (set before TryLock, so a failed TryLock is always seen by the holder)
+	s.flushWanted.Store(true)
+	for s.flushWanted.Load() {
+		if !s.flushMu.TryLock() {
+			return
+		}
+		s.flushWanted.Store(false)
+		s.doFlush()
+		s.flushMu.Unlock()
 	}
-	defer s.flushMu.Unlock()
+}
 
+func (s *socket) doFlush() {
 	if s.ReadyState() != "closed" && s.Transport().Writable() {
 		if wbuf := s.writeBuffer.AllAndClear(); len(wbuf) > 0 {
 			socket_log.Debug("flushing buffer to transport")
